@@ -47,7 +47,7 @@ func runC19(p *Program, r *Report) {
 		f := p.Func(name)
 		var errParam *ssa.Parameter
 		for _, prm := range f.Params {
-			if prm.Name() == "err" && isErrorType(prm.Type()) {
+			if refParamName(prm) == "err" && isErrorType(prm.Type()) {
 				errParam = prm
 			}
 		}
